@@ -139,15 +139,20 @@ func (em *emitter) emitNodes(nodes []ast.Node) {
 			} else {
 				forLabel := em.fb.newLabel()
 				em.fb.setLabelAddr(forLabel)
-				endForLabel := em.fb.newLabel()
-				target.continueLabel = forLabel
-				em.rangeLabels = append(em.rangeLabels, forLabel)
-				em.emitNodes(node.Body)
+				// A 'continue' executes the post statement, if present.
+				forPost := forLabel
 				if node.Post != nil {
+					forPost = em.fb.newLabel()
+				}
+				target.continueLabel = forPost
+				em.rangeLabels = append(em.rangeLabels, forPost)
+				em.emitNodes(node.Body)
+				em.rangeLabels = em.rangeLabels[:len(em.rangeLabels)-1]
+				if node.Post != nil {
+					em.fb.setLabelAddr(forPost)
 					em.emitNodes([]ast.Node{node.Post})
 				}
 				em.fb.emitGoto(forLabel)
-				em.fb.setLabelAddr(endForLabel)
 			}
 			em.fb.exitScope()
 			if em.breakLabel != nil {
